@@ -59,7 +59,7 @@ pub fn c11_scenario() -> Scenario {
 pub fn c12_scenario() -> Scenario {
     Scenario {
         id: "C12",
-        disk: vec![("a.td", "include \"b é.td\"\ndef x : DiskB;\n".into()), ("b é.td", "class DiskB;\n".into())],
+        disk: vec![("a.td", "include \"b é.td\"\ndef x : DiskB;\n".into()), ("b é.td", "class DiskB;\n".into()), ("sub/placeholder.td", "// keeps the subdirectory on disk\n".into())],
         alphabet: vec![
             Touch { doc: "a.td", text: "include \"b é.td\"\ndef x : BufB;\n".into(), reopen: false },
             Touch { doc: "a.td", text: "// edited\ninclude \"b é.td\"\ndef y : BufB2;\n".into(), reopen: false },
@@ -74,6 +74,8 @@ pub fn c12_scenario() -> Scenario {
             // the editor's buffer is empty (everything deleted) while the file on disk is not
             Touch { doc: "b é.td", text: String::new(), reopen: false },
             Touch { doc: "a.td", text: String::new(), reopen: false },
+            // a document in a subdirectory reaches the open document through `..`: it is the same file
+            Touch { doc: "sub/c.td", text: "include \"../b é.td\"\ndef zc : BufB;\n".into(), reopen: false },
             // a tab closed and opened again: its version numbers start again below the ones seen before
             Touch { doc: "b é.td", text: "class BufB2;\n".into(), reopen: true },
             Touch { doc: "a.td", text: "include \"b é.td\"\ndef y : BufB2;\n".into(), reopen: true },
@@ -359,7 +361,7 @@ impl Engine for C12 {
     }
     fn rule(&self, tier: Tier) -> String {
         format!(
-            "every session of <= {} messages over the 12 letters below and every session of {} messages over 8 of them (a with and without its include, b's two buffers, b including a back, b emptied, both re-opened): {{a.td := 5 texts (three include b.td, one does not, so that b.td leaves and re-enters the workspace while open), b.td := 5 texts, one of which includes a.td back so that the include walk reaches the edited document again; both documents also have the empty text, and each can be closed and opened again; versions count per document, the first open of a tab carries version 10, a re-opened tab starts again at 1}}, the included document is named `b é.td` (its URI carries percent-escapes); the on-disk b.td declares DiskB and the editor's b.td declares BufB / BufB2 (a's texts refer to one of them), \
+            "every session of <= {} messages over the 12 letters below and every session of {} messages over 8 of them (a with and without its include, b's two buffers, b including a back, b emptied, both re-opened): {{a.td := 5 texts (three include b.td, one does not, so that b.td leaves and re-enters the workspace while open), b.td := 5 texts, one of which includes a.td back so that the include walk reaches the edited document again; both documents also have the empty text, and each can be closed and opened again; a third document in a subdirectory includes the second through `..`; versions count per document, the first open of a tab carries version 10, a re-opened tab starts again at 1}}, the included document is named `b é.td` (its URI carries percent-escapes); the on-disk b.td declares DiskB and the editor's b.td declares BufB / BufB2 (a's texts refer to one of them), \
              first message to a document = didOpen, later = didChange; after EVERY message the latest publications and the documentSymbol response of every open document must match the reference session model \
              (texts = disk overlaid by open buffers, root = last touched document). states = distinct (buffers, root) configurations; transitions = messages; non-trivial = sessions of >= 2 messages.",
             tier.pick(3, 4),
@@ -371,7 +373,7 @@ impl Engine for C12 {
     }
     fn explore(&self, tier: Tier, ctx: &mut Ctx) {
         // the core letters: a with and without its include, b's two buffers, b including a back, b emptied, both re-opened
-        explore(&c12_scenario(), tier.pick(3, 4), &[0, 3, 4, 5, 7, 8, 10, 11], ctx);
+        explore(&c12_scenario(), tier.pick(3, 4), &[0, 3, 4, 5, 7, 8, 10, 11, 12], ctx);
     }
     fn eval_case(&self, case: &Value) -> Vec<Failure> {
         let dir = session_dir("C12", 99);
